@@ -343,6 +343,14 @@ pub fn run(ctx: &Ctx) {
 }
 
 pub fn replay(j: &serde_json::Value) -> Option<Verdict> {
+    if j.get("tree").is_none() {
+        if let Some(t) = j.get("source_text").and_then(|t| t.as_str()) {
+            return Some(match Expr::parse(t) {
+                Ok(e) => check(&e),
+                Err(_) => Ok(()),
+            });
+        }
+    }
     let e = expr_from_json(j.get("tree")?)?;
     Some(check(&e))
 }
